@@ -192,8 +192,19 @@ pub fn check_shape(mode: GameMode, pts: &[PathControlPoint], bufs: &mut CurveBuf
     if either.is_some() {
         h = h.min(sym(&path, &alt));
     }
+    // three-point arcs are evaluated as centre + radius * (cos, sin) in f32: that alone loses about radius * 2^-23 px.
+    // Below a radius of 10^6 this (< 0.5 px) is part of the f32 slack; from 10^6 on it is the recorded finding, which
+    // also covers the collapse to the chord once 1 - tolerance / radius rounds to 1 (deviation = the arc's sagitta)
+    let arc: Option<super::curves::Arc> = (segs.len() == 1 && segs[0].0 == SplineType::PerfectCurve && segs[0].1.len() == 3)
+        .then(|| arc_through(p2(segs[0].1[0].pos), p2(segs[0].1[1].pos), p2(segs[0].1[2].pos)))
+        .flatten();
+    let f32_term = arc.as_ref().map_or(0.0, |a| 4.0 * a.radius / 8_388_608.0);
+    let sl = sl + arc.as_ref().filter(|a| a.radius < 1e6).map_or(0.0, |_| f32_term);
+    let sagitta = arc.as_ref().map_or(0.0, |a| a.radius * (1.0 - (a.sweep.abs() / 2.0).cos()));
+    let f32_loss = |excess: f64| arc.as_ref().is_some_and(|a| a.radius >= 1e6 && excess <= f32_term + sagitta + 1.0);
     if h > bound + sl {
         let class = match segs.iter().map(|s| s.0).find(|k| *k != SplineType::Linear) {
+            _ if f32_loss(h) => "huge-radius-arc-f32-rounding",
             _ if segs.len() > 1 => "multi-segment-deviation",
             Some(SplineType::BSpline) => "bezier-deviation",
             Some(SplineType::PerfectCurve) => "arc-deviation",
@@ -209,10 +220,12 @@ pub fn check_shape(mode: GameMode, pts: &[PathControlPoint], bufs: &mut CurveBuf
         let last = p2(seg[seg.len() - 1].pos);
         let tol = sl;
         if dist2(path[0], first) > tol {
-            viol("segment-start", format!("path starts at {:?}, first control point {first:?}", path[0]), acc);
+            let class = if f32_loss(dist2(path[0], first)) { "huge-radius-arc-f32-rounding" } else { "segment-start" };
+            viol(class, format!("path starts at {:?}, first control point {first:?}", path[0]), acc);
         }
         if dist2(*path.last().unwrap(), last) > tol {
-            viol("segment-end", format!("path ends at {:?}, last control point {last:?}", path.last()), acc);
+            let class = if f32_loss(dist2(*path.last().unwrap(), last)) { "huge-radius-arc-f32-rounding" } else { "segment-end" };
+            viol(class, format!("path ends at {:?}, last control point {last:?}", path.last()), acc);
         }
         if *kind == SplineType::Linear {
             let want: Vec<Pos> = seg.iter().map(|p| p.pos).collect();
@@ -357,6 +370,7 @@ fn fixed_shapes() -> Vec<Vec<PathControlPoint>> {
         }
     }
     v.extend(super::curves::near_collinear_arcs());
+    v.extend(super::curves::far_almost_collinear_arcs());
     v
 }
 
@@ -411,7 +425,7 @@ pub fn run(tier: Tier) -> i32 {
                bezier 0.25, arc 0.4, Catmull sampling bound (+6 in osu mode) plus an f32 slack; segment start/end at its \
                control points; collinear or >= 1000-sub-point perfect curves equal the bezier of the same points; an exactly \
                shared joint vertex appears once; plus fixed shapes: enormous / tiny perfect curves, a 10-point bezier, and beziers of \
-               5..10 anchors (the statement's range) spaced 2..12 px along arcs of radius 50..400, and 3 060 almost straight three-point perfect curves (sagitta 0..1 px). distinct_nontrivial = distinct (mode, path length, distance, end point)"
+               5..10 anchors (the statement's range) spaced 2..12 px along arcs of radius 50..400, and almost straight three-point perfect curves near (sagitta 0..1 px) and far from the origin (coordinates up to 37 000). distinct_nontrivial = distinct (mode, path length, distance, end point)"
             .into(),
         bounds: json!({"families": bounds, "fixed_shapes": fixed_shapes().len()}),
         exhaustive: true,
